@@ -1,5 +1,6 @@
 import LinOp.Core.Parse
 import LinOp.C03.Model
+import LinOp.C03.OpParse
 /-! Line-protocol driver for the C03 model (core only). -/
 open LinOp LinOp.C03 LinOp.Parse
 
@@ -79,6 +80,20 @@ def stepLine (_ : Unit) (line : String) : Unit × String :=
         | .slice a b c => showNats (sliceIndices n a b c)
         | _ => "bad-op"
       | _, _ => "bad-op"
+    | "opall" :: bsh :: "|" :: expr =>
+      match pShape bsh, parseOp 64 expr with
+      | some bshape, some (op, []) => opAll op bshape
+      | _, _ => "bad-op"
+    | "front" :: bsh :: rest =>
+      -- front <bshape> <items…> | <expr>
+      let items := rest.takeWhile (· ≠ "|")
+      let expr := (rest.dropWhile (· ≠ "|")).drop 1
+      match pShape bsh, items.mapM pItem, parseOp 64 expr with
+      | some bshape, some idx, some (op, []) =>
+        match frontEnd op bshape idx with
+        | some (sh, vals) => s!"S={showNats sh}|V={showInts vals}"
+        | none => "none"
+      | _, _, _ => "bad-op"
     | ["absorbed", b, r, c] => if rowColAbsorbed (b = "1") (r = "1") (c = "1") then "1" else "0"
     | _ => "bad-op"
   ((), out)
